@@ -80,6 +80,9 @@ func makeSys(c string, j Job) Sys {
 	if j.s("elem", "") == "ov" {
 		return ovSys(c, j)
 	}
+	if ts := typedSysFor(c, j); ts != nil {
+		return ts
+	}
 	deep := j.p("deep", 0) == 1
 	valCmps := map[string]func(a, b Val) int{"nat": func(a, b Val) int { return int(a - b) }, "rev": func(a, b Val) int { return int(b - a) }, "coarse": func(a, b Val) int { return int(a/2 - b/2) }}
 	switch c {
@@ -97,7 +100,7 @@ func makeSys(c string, j Job) Sys {
 		}
 		return ls
 	case "hashset", "linkedhashset", "treeset":
-		if deep && c == "linkedhashset" {
+		if deep && (c == "linkedhashset" || c == "hashset") {
 			return &SetSys[Val]{Kind: c, CmpN: "nat", Absent: -5, Poison: -99, Cmp: func(a, b Val) int { return int(a - b) }, N: n,
 				Gen: func(i int) Val { return Val(i) }}
 		}
@@ -165,19 +168,8 @@ func makeSys(c string, j Job) Sys {
 
 // pureSys: the same system with pure (non-counting) comparators.
 func pureSys(s Sys) Sys {
-	switch x := s.(type) {
-	case *KVSys[Key, Val]:
-		x.NoCount = true
-	case *KVSys[int, Val]:
-		x.NoCount = true
-	case *KVSys[int, int]:
-		x.NoCount = true
-	case *KVSys[string, string]:
-		x.NoCount = true
-	case *KVSys[string, Val]:
-		x.NoCount = true
-	case *KVSys[Val, Val]:
-		x.NoCount = true
+	if x, ok := s.(interface{ setNoCount() }); ok {
+		x.setNoCount()
 	}
 	return s
 }
@@ -202,7 +194,7 @@ func init() {
 		}()
 		return makeSys(j.s("c", ""), j)
 	}
-	for _, k := range []string{"iter", "snap", "c15", "json11", "json12", "pure", "race", "enum"} {
+	for _, k := range []string{"iter", "snap", "c15", "json11", "json12", "pure", "race", "enum", "anysys", "rewound"} {
 		sysForJob[k] = generic
 	}
 	sysForJob["kv"] = func(j Job) Sys { return kvSysFromJob(j) }
